@@ -137,6 +137,18 @@ where
     } // end of reset
 } // end of implementation block for ProbMinHash2
 
+#[cfg(probminhash_verif)]
+impl<D, H> ProbMinHash2<D, H>
+where
+    D: Copy + Eq + Hash + Debug,
+    H: Hasher + Default,
+{
+    /// verification hook : read-only copy of the per-position register values
+    pub fn verif_registers(&self) -> Vec<f64> {
+        (0..self.m).map(|k| self.maxvaluetracker.get_value(k)).collect()
+    }
+}
+
 #[cfg(test)]
 mod tests {
 
